@@ -6,7 +6,7 @@ import re
 
 rows = []
 for f in sorted(glob.glob(os.path.join(os.path.dirname(__file__), '..', 'seeded', '*', 'meta.json')),
-                key=lambda p: (re.sub(r'-\d+$', '', p.split('/')[-2]), p.split('/')[-2])):
+                key=lambda p: (re.sub(r'-\d+$', '', p.split('/')[-2]), int((re.findall(r'-(\d+)$', p.split('/')[-2]) or ['1'])[0]))):
     m = json.load(open(f))
     name = f.split('/')[-2]
     summ = (m.get('summary') or '').replace('\n', ' ').replace('|', '/')
